@@ -50,7 +50,7 @@ CLAIMED = {
          "Tier L; bounded script length; deviation bound.", "DESIGN.md §4 C07"),
  "C09": ("model_checking",
          "stateless model checking of availability channels / establishers / connection cache of the real client over a simulated cluster: concurrent callers x faults x positions x schedules up to 2-3 deviations",
-         "2-3 concurrent callers over 2-3 regions behind one or two connections, nine fault kinds (connection reset, crash with reassignment, NSRE bursts, split, split with daughter still opening, merge, server-stopped, move), either as a cold burst or with a request held in flight and the fault fired after the k-th server-side attempt. Oracle: no panic in any thread (double release = close of nil channel), all requests succeed, and at quiescence no cached region is unavailable and no client thread is still running. Every event is additionally fired as an interrupt at every scheduling step of a cold burst of two callers and of two callers with one region known, in all layouts, with <=1 further deviation.",
+         "2-3 concurrent callers over 2-3 regions behind one or two connections, nine fault kinds (connection reset, crash with reassignment, NSRE bursts, split, split with daughter still opening, merge, server-stopped, move), either as a cold burst or with a request held in flight and the fault fired after the k-th server-side attempt. Oracle: no panic in any thread (double release = close of nil channel), all requests succeed, and at quiescence no cached region is unavailable and no client thread is still running. Every event is additionally fired as an interrupt at every scheduling step of a cold burst of two callers and of two callers with one region known, in all layouts, with <=1 further deviation. A further family dumps the client's state (DebugState) twice while a request runs and a reset / crash / split / merge hits.",
          "Tier L; the data-race clause is not decided by this check (a cooperative scheduler's hand-offs hide races from the detector) - see DESIGN.md §6.", "DESIGN.md §4 C09"),
  "C12": ("model_checking",
          "stateless model checking of SendBatch with the simulated cluster's executor as observer: invalid batches at every position; attempts, execution counts and per-region order judged at the servers",
@@ -86,7 +86,7 @@ CLAIMED = {
          "Every ordered pair of ~9k (quick) / ~23k (thorough) well-formed region names and every triple of a 160-name subset is compared with the real comparator and with a component-wise (table,start,id) oracle; search keys 'table,key,:' are compared against every name. Exhaustive within the stated alphabet and key length, which is where comparator mistakes live (bytes around ',' and unequal lengths).",
          "Scope bound: start keys <=3 bytes over a 6 (thorough 8) symbol alphabet; well-formed names only.", "DESIGN.md §4 C16"),
 }
-FIX_COMMITS = ["0da2129", "62252c5", "effb93f", "0cef440", "27c75df", "f573f90", "137cea9", "fa68402", "74e6ab5", "ffdcfd8", "dc24a9a", "6fcb5bf", "0fa34d5", "6c1c1ad", "7f1a30c", "182fbfa", "4bf0000", "ea56d2b", "42fccfe", "9fcc7db", "b774b6b", "8cf1667", "37b9cbe", "93791b8", "c29fe29", "6580dad", "aa30842", "52a1fca", "742668c", "416af3a", "391f649", "3b0b9d6", "fe3839c", "52710a6", "a206221", "401f2d8", "d07342b", "4321484", "fb45e7e", "905f0eb", "6247cc8", "4bc6452", "9ca6716", "f352e7f", "b49b752", "a7ff6df"]
+FIX_COMMITS = ["0da2129", "62252c5", "effb93f", "0cef440", "27c75df", "f573f90", "137cea9", "fa68402", "74e6ab5", "ffdcfd8", "dc24a9a", "6fcb5bf", "0fa34d5", "6c1c1ad", "7f1a30c", "182fbfa", "4bf0000", "ea56d2b", "42fccfe", "9fcc7db", "b774b6b", "8cf1667", "37b9cbe", "93791b8", "c29fe29", "6580dad", "aa30842", "52a1fca", "742668c", "416af3a", "391f649", "3b0b9d6", "fe3839c", "52710a6", "a206221", "401f2d8", "d07342b", "4321484", "fb45e7e", "905f0eb", "6247cc8", "4bc6452", "9ca6716", "f352e7f", "b49b752", "a7ff6df", "8fa59cf"]
 NA_REASONS = {}
 PENDING_REASON = "check under construction in this revision (planned: see DESIGN.md §4); not claimed until its check is committed"
 
